@@ -5,6 +5,7 @@ import Driver.Refs
 import Driver.AssembleE
 import Driver.Heat
 import Driver.Magnetics
+import Driver.PostInt
 /-! `xfemm_model` — line-protocol driver for the executable models.
     usage: xfemm_model <engine> [float|rat]   (requests on stdin, one reply per line on stdout) -/
 def main (args : List String) : IO UInt32 := do
@@ -14,6 +15,7 @@ def main (args : List String) : IO UInt32 := do
   | "sparse" :: rest => Driver.Sparse.run (rest.headD "float") stdin stdout; return 0
   | "assemble-e" :: _ => Driver.AssembleE.run stdin stdout; return 0
   | "magnetics" :: _ => Driver.Magnetics.run stdin stdout; return 0
+  | "postint" :: _ => Driver.PostInt.run stdin stdout; return 0
   | "heat" :: _ => Driver.Heat.run stdin stdout; return 0
   | "refs" :: _ => Driver.Refs.run stdin stdout; return 0
   | "exit" :: _ => Driver.Exit.run stdin stdout; return 0
